@@ -478,6 +478,10 @@ CLASSES["fabricated-span-0-1-inside-multibyte-char"] = (
     and len(e["text"]) > 0 and len(e["text"][0].encode("utf-8")) > 1)
 
 
+CLASSES["recursive-type-alias-used"] = (
+    # F60: check_type_alias_cycles reports a cyclic alias but leaves it registered; resolve_type_alias follows aliases without a visited set
+    lambda e: e["kind"] == "abort" and e["stage"] in ("typecheck",) + EMIT and e.get("still_aborts_with_big_stack", False)
+    and "type" in toks_of(e["text"]) and "alias" in toks_of(e["text"]))
 CLASSES["delay-size-not-a-literal"] = (
     # F59: the maximum delay time must be a number literal; nothing checks it before mirgen
     lambda e: e["kind"] == "panic" and e["stage"] in EMIT and in_file(e, MIRGEN) and "unbounded delay access" in e["msg"]
